@@ -40,6 +40,16 @@ CLAIMS = {
    text="All operator sequences up to length 3, sampled/exhaustive length 4 and type-directed chains up to length 8 (with unary -, !, transpose and **) are interpreted unparenthesised, fully parenthesised by the reference grouping, and stepwise; the three results must be the same canonical value. Random explicit parenthesisations are checked against their own tree.",
    note="Trusts the harness' reading of the specification's precedence table; operand values are chosen so that a different grouping changes the value (non-commutative, negative, zero, fractional).",
    ref="6/C02"),
+ "C11": dict(
+   technique="runtime monitoring: reference block placement compared with interpreted literals over an exhaustive enumeration of tilings (compositions of heights x compositions of widths) x element kinds, with off-by-one and mixed-kind invalid variants; ASan flavour in thorough",
+   text="Every tiling of a result up to 4x4 by 1-4 block rows of 1-4 blocks (and sampled larger ones) is built from API-bound blocks with pairwise distinct contents and interpreted as a matrix literal; the value must be exactly the block matrix with the element kind preserved, and a block one row too tall, one column too wide or of another kind must make the literal an error.",
+   note="Trusts the harness placement model; quick enumerates all tilings for f64 and a seeded subset for the other kinds, thorough all tilings for all kinds.",
+   ref="6/C11"),
+ "C12": dict(
+   technique="runtime monitoring: exact representability oracle (big-integer / dyadic / rational), trunc-and-clamp rule, scalar-vs-matrix differential twin, column-major reshape model and distinct-element model over a kind-pair x value-group sweep",
+   text="For every ordered pair of numeric kinds, boundary and random values that the target can represent must convert to exactly that number, floats must truncate toward zero and clamp into integer kinds, matrix conversion must equal the scalar rule elementwise and keep the shape; all reshapes up to 16 elements must be column-major (unequal counts fail); string->number fails; matrix->set keeps the distinct elements.",
+   note="Pairs for which every value is rejected are treated as 'no conversion' (allowed by the property). Unconstrained cases (narrowing integers, inexact floats) are only judged through the matrix-vs-scalar twin.",
+   ref="6/C12"),
 }
 NOT_YET = "not claimed yet: the monitor for this property is still being built in this session (see DESIGN.md section 6 for the planned check)"
 
